@@ -52,6 +52,9 @@ C10_PerLocalAddress == (J /\ Wld /\ T.usable) =>
                                                    /\ WD[k].conn > 0 /\ WD[k].nth = 1
                          /\ \A a, b \in 1..Len(WD) : a # b => WD[a].conn # WD[b].conn
                          /\ \A k \in 2..Len(WD) : ~WD[k].closed /\ WD[k].again /\ WD[k].againNth = 2
+\* ... and a connection the server opens itself (NewConn) is that peer's connection whatever local addresses other peers have been
+\* talking to: the answer to a request sent on it reaches the request
+C10_ServerInitiated == (J /\ Wld /\ T.usable /\ T.srvAsked /\ T.srvReqSeen) => T.srvAnswered
 \* a tcp server that probes idle peers (keep-alive): a peer that stalls is dropped - and only that peer: the well-behaved
 \* one, idle meanwhile and answering its own probes, keeps its connection and its answers
 C10_StalledPeerAlone == (J /\ T.op = "kastall" /\ T.gBefore /\ T.xDropped) => (T.gDropped = 0 /\ ~T.gClosed /\ T.gAfter)
